@@ -29,13 +29,25 @@ RULE = (
     "differences and small roll/pitch; non-trivial = pair with non-zero yaw difference; distinct = (frame, sign combo, "
     "quadrant of est yaw, quadrant of gt yaw, |d| bucket)"
 )
-ASSUMPTIONS = ["roll and pitch <= 0.05 rad", "weight tolerance 1e-9, error tolerance 1e-9"]
+ASSUMPTIONS = ["roll and pitch <= 0.05 rad; for tilted boxes the yaw is convention dependent to second order, tolerance 2*tilt^2", "yaw-only boxes: weight tolerance 1e-9, error tolerance 1e-9"]
 DECIDING = ["TPMetricsAph.get_value.checked", "get_heading_error.checked", "C09.negative_yaw_ego_pairs", "C09.sign_checked", "C09.frame_checked", "C09.symmetry_checked"]
 JOBS = {"quick": 2, "thorough": 14}
 
 
 def yaw_of(o: Any) -> float:
     return O.box_of(o)[3]
+
+
+def tilt_of(o: Any) -> float:
+    q = o.state.orientation
+    m = G.quat_to_matrix((q.w, q.x, q.y, q.z))
+    return math.acos(max(-1.0, min(1.0, float(m[2, 2]))))
+
+
+def yaw_tol(*objs: Any) -> float:
+    """With roll/pitch the 'yaw angle' is convention dependent to second order in the tilt: tolerate 2*tilt^2."""
+    t = sum(tilt_of(o) for o in objs)
+    return 1e-9 + 2.0 * t * t
 
 
 def install(taps: Taps, ctx: Ctx) -> None:
@@ -49,7 +61,7 @@ def install(taps: Taps, ctx: Ctx) -> None:
                     ctx.check(v == 0.0, "C09/aph_weight_without_gt_not_zero", dict(v=v), "TPMetricsAph.get_value")
                     return
                 d = G.yaw_diff_abs(yaw_of(e), yaw_of(g))
-                ctx.check(close(float(v), 1.0 - d / math.pi, 1e-9, 0), "C09/aph_weight_not_1_minus_d_over_pi", dict(value=v, expected=1.0 - d / math.pi, est=O.describe(e), gt=O.describe(g)), "TPMetricsAph.get_value")
+                ctx.check(close(float(v), 1.0 - d / math.pi, yaw_tol(e, g), 0), "C09/aph_weight_not_1_minus_d_over_pi", dict(value=v, expected=1.0 - d / math.pi, est=O.describe(e), gt=O.describe(g)), "TPMetricsAph.get_value")
                 ctx.check(0.0 <= v <= 1.0, "C09/aph_weight_outside_unit_interval", dict(value=v), "TPMetricsAph.get_value")
 
             guarded(ctx, "TPMetricsAph.get_value", j)
@@ -70,7 +82,7 @@ def install(taps: Taps, ctx: Ctx) -> None:
                 yaw_err = float(out[2])
                 info = dict(error=[float(x) for x in out], expected_magnitude=d, self_yaw=yaw_of(self), other_yaw=yaw_of(other))
                 ctx.check(-math.pi - 1e-9 <= yaw_err <= math.pi + 1e-9, "C09/yaw_error_outside_pm_pi", info, "get_heading_error")
-                ctx.check(close(abs(yaw_err), d, 1e-9, 0), "C09/yaw_error_magnitude_not_minimal_difference", info, "get_heading_error")
+                ctx.check(close(abs(yaw_err), d, yaw_tol(self, other), 0), "C09/yaw_error_magnitude_not_minimal_difference", info, "get_heading_error")
 
             guarded(ctx, "get_heading_error", j)
             return out
@@ -96,7 +108,7 @@ def pair(ye: float, yg: float, neg_e: bool, neg_g: bool, frame: str, ego_yaw: fl
     e = O.obj3d(3.0, 1.0, 0.0, ye, negate_q=neg_e, roll=roll, pitch=pitch)
     g = O.obj3d(3.2, 1.1, 0.0, yg, negate_q=neg_g)
     if frame == "map":
-        ego = ((120.0, -45.0, 1.0), ego_yaw)
+        ego = (EGO, ego_yaw)
         e, g = O.to_map(e, *ego), O.to_map(g, *ego)
         if neg_e:
             e.state.orientation = -e.state.orientation
@@ -105,8 +117,12 @@ def pair(ye: float, yg: float, neg_e: bool, neg_g: bool, frame: str, ego_yaw: fl
     return e, g
 
 
-def weight(e: Any, g: Any) -> float:
-    return APH.get_value(DynamicObjectWithPerceptionResult(e, g, MatchingLabelPolicy.DEFAULT))
+EGO = (120.0, -45.0, 1.0)
+
+
+def weight(e: Any, g: Any, ego_yaw: float = 0.0) -> float:
+    tr = O.transforms_for(EGO, ego_yaw) if O.frame_of(e) == "map" else None
+    return APH.get_value(DynamicObjectWithPerceptionResult(e, g, MatchingLabelPolicy.DEFAULT, transforms=tr))
 
 
 def quadrant(y: float) -> int:
@@ -118,31 +134,34 @@ def one(ctx: Ctx, workload: str, idx: int, ye: float, yg: float, ego_yaws, roll:
     e0, g0 = pair(ye, yg, False, False, "base_link", roll=roll, pitch=pitch)
     base = weight(e0, g0)
     d = G.yaw_diff_abs(yaw_of(e0), yaw_of(g0))
+    tol = yaw_tol(e0, g0)
+    tilted = bool(roll or pitch)
     if G.wrap_pi(ye) < 0 or G.wrap_pi(yg) < 0:
         ctx.count("C09.negative_yaw_ego_pairs")
     # symmetry
     ctx.count("C09.symmetry_checked")
-    ctx.check(close(weight(g0, e0), base, 1e-9, 0), "C09/aph_weight_not_symmetric", dict(est_yaw=ye, gt_yaw=yg, a=base, b=weight(g0, e0)), "TPMetricsAph.get_value")
+    ctx.check(close(weight(g0, e0), base, tol, 0), "C09/aph_weight_not_symmetric", dict(est_yaw=ye, gt_yaw=yg, a=base, b=weight(g0, e0)), "TPMetricsAph.get_value")
     # quaternion sign convention
     for ne, ng in ((True, False), (False, True), (True, True)):
         e, g = pair(ye, yg, ne, ng, "base_link", roll=roll, pitch=pitch)
         ctx.count("C09.sign_checked")
-        ctx.check(close(weight(e, g), base, 1e-9, 0), "C09/aph_weight_depends_on_quaternion_sign", dict(est_yaw=ye, gt_yaw=yg, neg=(ne, ng), a=base, b=weight(e, g)), "TPMetricsAph.get_value")
+        ctx.check(close(weight(e, g), base, tol, 0), "C09/aph_weight_depends_on_quaternion_sign", dict(est_yaw=ye, gt_yaw=yg, neg=(ne, ng), a=base, b=weight(e, g)), "TPMetricsAph.get_value")
         he = e.get_heading_error(g)
-        ctx.check(close(abs(he[2]), d, 1e-9, 0), "C09/yaw_error_depends_on_quaternion_sign", dict(est_yaw=ye, gt_yaw=yg, neg=(ne, ng), err=he[2], d=d), "get_heading_error")
+        ctx.check(close(abs(he[2]), d, tol, 0), "C09/yaw_error_depends_on_quaternion_sign", dict(est_yaw=ye, gt_yaw=yg, neg=(ne, ng), err=he[2], d=d), "get_heading_error")
     # either order of the two objects
     h1, h2 = e0.get_heading_error(g0), g0.get_heading_error(e0)
-    ctx.check(close(abs(h1[2]), abs(h2[2]), 1e-9, 0), "C09/yaw_error_magnitude_depends_on_order", dict(est_yaw=ye, gt_yaw=yg, a=h1[2], b=h2[2]), "get_heading_error")
+    ctx.check(close(abs(h1[2]), abs(h2[2]), tol, 0), "C09/yaw_error_magnitude_depends_on_order", dict(est_yaw=ye, gt_yaw=yg, a=h1[2], b=h2[2]), "get_heading_error")
     # frame the pair is expressed in
     for k, ey in enumerate(ego_yaws):
         e, g = pair(ye, yg, bool(k & 1), bool(k & 2), "map", ego_yaw=ey, roll=roll, pitch=pitch)
         ctx.count("C09.frame_checked")
-        ctx.check(close(weight(e, g), base, 1e-9, 0), "C09/aph_weight_depends_on_frame", dict(est_yaw=ye, gt_yaw=yg, ego_yaw=ey, ego=base, map=weight(e, g)), "TPMetricsAph.get_value")
+        wm = weight(e, g, ey)
+        ctx.check(close(wm, base, tol, 0), "C09/aph_weight_depends_on_frame", dict(est_yaw=ye, gt_yaw=yg, ego_yaw=ey, ego=base, map=wm), "TPMetricsAph.get_value")
         he = e.get_heading_error(g)
-        ctx.check(close(abs(he[2]), d, 1e-9, 0), "C09/yaw_error_depends_on_frame", dict(est_yaw=ye, gt_yaw=yg, ego_yaw=ey, err=he[2], d=d), "get_heading_error")
-    if abs(d) < 1e-12:
+        ctx.check(close(abs(he[2]), d, tol, 0), "C09/yaw_error_depends_on_frame", dict(est_yaw=ye, gt_yaw=yg, ego_yaw=ey, err=he[2], d=d), "get_heading_error")
+    if abs(d) < 1e-12 and not tilted:
         ctx.check(close(base, 1.0, 1e-9, 0), "C09/equal_headings_weight_not_one", dict(est_yaw=ye, gt_yaw=yg, w=base), "TPMetricsAph.get_value")
-    if abs(d - math.pi) < 1e-12:
+    if abs(d - math.pi) < 1e-12 and not tilted:
         ctx.check(close(base, 0.0, 1e-9, 0), "C09/opposite_headings_weight_not_zero", dict(est_yaw=ye, gt_yaw=yg, w=base), "TPMetricsAph.get_value")
     ctx.case(("pair", quadrant(ye), quadrant(yg), min(int(d / (math.pi / 6)), 6), bool(roll or pitch)), nontrivial=d > 1e-9, sample=dict(est_yaw=ye, gt_yaw=yg, weight=base, d=d) if idx in (7, 55) else None)
 
